@@ -27,6 +27,7 @@ func runC11(c *Ctx, r *Report) {
 	defer c11r14(c, r)
 	defer c11r15(c, r)
 	defer c11r16(c, r)
+	defer c11r17(c, r)
 	defer c07r11(c, r) // --accept-nth cuts the fields on the text without the escape sequences
 	ec := l.Fn("fzf", "extractColor")
 	next := l.Fn("fzf", "nextAnsiEscapeSequence")
